@@ -81,6 +81,7 @@ CLAIMED["C05"] = dict(
          "count/bounds/position contract re-evaluated on the implementation's own transcripts for every writable (major, subtype, endian) incl. all block codecs, "
          "against one sequential reference read, with exact-size ASan-guarded buffers. The predicate that decides VIOLATION on an implementation transcript is the Lean definition Sf.Abs.holdsOn (lean/SfModel/Abs.lean: L0 abstract handle model of any container, reference stream as a parameter) evaluated by the driver `sfmodel abs`; SfProps/C05Abs.lean proves what an accepted transcript means and that contract-satisfying answers are accepted; the former Python predicate runs beside it as a cross-check (evidence: abs_predicate). "
          "Codecs that used to be opaque are now modelled bit-exactly: G.721/G.723 (SfModel/G72x.lean, G72xFile.lean: g72x_read_contract for every request size and position; codec-core memory safety proved — g72x_state_inv, g72x_encode_safe / g72x_decode_safe: every table index and shift count in range for every reachable state; tied by vlib/g72x.py on every cell of every read buffer), GSM 06.10 (gsm_read_call_contract / gsm_read_at_end, SfProps/C06Gsm.lean), NMS ADPCM (see below). Partial: ALAC is still opaque and covered by (B) only.",
+         "against one sequential reference read, with exact-size ASan-guarded buffers. Partial: opaque codecs are covered by (B) only. The predicate that decides VIOLATION on an implementation transcript is the Lean definition Sf.Abs.holdsOn (lean/SfModel/Abs.lean: L0 abstract handle model of any container, reference stream as a parameter) evaluated by the driver `sfmodel abs`; SfProps/C05Abs.lean proves what an accepted transcript means and that contract-satisfying answers are accepted; the former Python predicate runs beside it as a cross-check (evidence: abs_predicate). The predicate is SOUND against the concrete handle model by a machine-checked bridge (SfProps/C05Bridge.lean `handle_run_accepted`: the transcript of every operation list of Sf.Handle from every invariant state, RAW/AU/WAV, every sample-granular codec, is accepted by holdsOn with ref := the decoded data region; induction over runOps).",
     technique="Lean 4 theorems over a hand-written handle model + differential correspondence + contract evaluation on implementation transcripts",
     design_ref="DESIGN.md §7 C05")
 CLAIMED["C06"] = dict(
@@ -89,17 +90,22 @@ CLAIMED["C06"] = dict(
          "seeded seek/read histories must deliver slices of the one-pass reference stream and position probes must agree. Handles reporting SF_INFO.seekable = 0 "
          "are required to refuse every seek. The predicate that decides VIOLATION on an implementation transcript is the Lean definition Sf.Abs.holdsOn (lean/SfModel/Abs.lean: L0 abstract handle model of any container, reference stream as a parameter) evaluated by the driver `sfmodel abs`; SfProps/C06Abs.lean proves what an accepted transcript means and that contract-satisfying answers are accepted; the former Python predicate runs beside it as a cross-check (evidence: abs_predicate). "
          "G.721/G.723: g72x_read_partition (any sequence of requests of any types = one slice of the decoded stream, a function of the data bytes), g72x_seek_refused, decoder model bit-exact on adversarial data. GSM 06.10 is modelled bit-exactly (SfModel/Gsm.lean, GsmFile.lean; SfProps/C06Gsm.lean: decoder memory safety for every frame, reads of any partition / caller type deliver the sequential decode, sf_seek always refused; vlib/gsm.py compares every decoded sample with the model). Partial: ALAC's seek internals are opaque (checked by B).",
+         "are required to refuse every seek. Partial: block-codec seek internals are opaque (checked by B). The predicate that decides VIOLATION on an implementation transcript is the Lean definition Sf.Abs.holdsOn (lean/SfModel/Abs.lean: L0 abstract handle model of any container, reference stream as a parameter) evaluated by the driver `sfmodel abs`; SfProps/C06Abs.lean proves what an accepted transcript means and that contract-satisfying answers are accepted; the former Python predicate runs beside it as a cross-check (evidence: abs_predicate). The predicate is SOUND against the concrete handle model by a machine-checked bridge (SfProps/C05Bridge.lean `handle_run_accepted`: the transcript of every operation list of Sf.Handle from every invariant state, RAW/AU/WAV, every sample-granular codec, is accepted by holdsOn with ref := the decoded data region; induction over runOps).",
     technique="Lean 4 theorems over a hand-written handle model + differential correspondence + contract evaluation on implementation transcripts",
     design_ref="DESIGN.md §7 C06")
 
 _WR = ("tied to the code two ways: (A) byte-exact correspondence (transcripts and file bytes) of seeded write/close/re-open histories on every RAW/AU/WAV encoding against the "
        "Lean handle+container model; (B) for every writable (major, subtype, endian) x channels x rates x lengths around block boundaries, the same samples written in one call and "
        "split over mixed calls with header updates, crash-point snapshots and a different stale frames value, re-opened and compared on the implementation's own transcripts. ")
+_AW = (" The predicate that decides VIOLATION on a record of the all-format write campaign is the Lean definition Sf.AbsWrite.judge (lean/SfModel/AbsWrite.lean: the clauses of the statement as Boolean checkers over the "
+       "samples handed to each write call, the lossless side condition, re-open info, read-back, closed bytes of the reference / split / stale-frames runs and every crash-point image, with the geometry of lean/SfModel/Geometry.lean) "
+       "evaluated by the driver `sfmodel abs-write`; SfProps/%sAbsW.lean proves what an accepted record means and that the answers the concrete model is proved to give are accepted; the Python predicate runs beside it as a cross-check "
+       "(evidence `abs_write_predicate`, lean_python_disagreements = 0).")
 CLAIMED["C01"] = dict(
     text="Proof (Lean 4): sample_roundtrip / data_roundtrip (decode∘encode = id for every lossless (encoding, caller type) pair, every length, every conversion setting), "
          "file_roundtrip (open, any list of write calls, close: the data region is encodeAll of the samples and decodes back) for RAW/AU/WAV, and aiff_file_roundtrip "
          "(SfProps/C01Aiff.lean: the same for every accepted AIFF/AIFF-C encoding incl. re-open info and exact frames; the campaign of vlib/aiff.py compares the audio bytes with the model's encoders); " + _WR +
-         "Partial: block codecs (ALAC, DWVW, DPCM, SDS, PAF24) are covered by (B) only.",
+         "Partial: block codecs (ALAC, DWVW, DPCM, SDS, PAF24) are covered by (B) only." + _AW % "C01",
     technique="Lean 4 theorems over a hand-written codec/handle model + differential correspondence + round-trip predicate on implementation transcripts",
     design_ref="DESIGN.md §7 C01")
 CLAIMED["C04"] = dict(
@@ -116,18 +122,20 @@ CLAIMED["C04"] = dict(
          "and the old rule's failure as an _old_rule theorem: WAV/GSM 6.10 pad byte (C04GsmPad: wav_gsm_reopen_frames; C04Gsm over the bit-exact GSM wrapper model), SVX/MPC2K 16-bit rate saturates "
          "(svx_rate, mpc2k_reopen_info), IRCAM rate cap and big-endian channel guess (ircam_reopen_info for every accepted configuration), PVF 11-byte header (pvf_reopen_info outside the 11-byte-file class only), "
          "XI header rewritten at close. Partial: header bytes of MAT5, SDS, SD2 are not modelled (covered by B); ALAC is opaque.",
+         "rate quantiser per container) is written from the format definitions, not measured. Partial: header bytes of the other 17 containers are not modelled (covered by B)." + _AW % "C04",
     technique="Lean 4 theorems over hand-written container models + differential correspondence (file bytes, parser verdicts) + predicate on implementation transcripts",
     design_ref="DESIGN.md §7 C04")
 CLAIMED["C07"] = dict(
     text="Proof (Lean 4): kernel_append, write_partition_store (two calls = one call, every field and byte), file_bytes_fn / file_bytes_partition (closed bytes are a function of "
          "open parameters, concatenated samples and PEAK state only; header updates and call variants do not matter) for RAW/AU/WAV, and since the repairs of KF-C18-DOUBLE-NARROW / KF-C18-STAGING-MISALIGN also for "
          "PEAK-carrying WAV float/double with finite samples (file_bytes_partition_finite); " + _WR + "The clock is pinned by the harness. G.721/G.723: g72x_write_partition (the generic block-writer theorem instantiated with the REAL encoder, predictor state carried across blocks; all caller types), data region byte-exact against the model. GSM 06.10: gsm_file_bytes_partition (SfProps/C07Gsm.lean) over the bit-exact encoder model SfModel/GsmEnc.lean, tied byte for byte by vlib/gsm.py. Partial: the ALAC and IMA/MS ADPCM encoders are covered by (B).",
+         "PEAK-carrying WAV float/double with finite samples (file_bytes_partition_finite); " + _WR + "The clock is pinned by the harness. Partial: block encoders are covered by (B)." + _AW % "C07",
     technique="Lean 4 theorems over a hand-written handle model + differential correspondence + byte comparison of partitions on the implementation",
     design_ref="DESIGN.md §7 C07")
 CLAIMED["C11"] = dict(
     text="Proof (Lean 4) that the store after a header update parses to the frames written so far (AU/WAV model); " + _WR +
          "Every snapshot (copy of the store right after SFC_UPDATE_HEADER_NOW or, in auto mode, after each write) is opened by a second handle and must report the same parameters, "
-         "the frames written so far (whole blocks) and the same prefix of samples. RAW (no header) and CAF/ALAC are outside the statement.",
+         "the frames written so far (whole blocks) and the same prefix of samples. RAW (no header) and CAF/ALAC are outside the statement." + _AW % "C11",
     technique="Lean 4 theorems over a hand-written container model + crash-point snapshots parsed by the implementation",
     design_ref="DESIGN.md §7 C11")
 CLAIMED["C03"] = dict(
@@ -149,7 +157,7 @@ CLAIMED["C08"] = dict(
          "seeded rw histories (all 12 whence cases, truncate on descriptor routes, header updates, close/re-open, from empty and pre-populated files) on every RAW/AU/WAV "
          "encoding, and (B) for every sample-granular container that opens SFM_RDWR, histories checked op by op against the abstract file of the statement "
          "(frame list + read position + write position) with a lossless caller type. Partial: the refinement theorem tying the byte model to the abstract file is stated "
-         "through C01/C05 lemmas, not as one theorem. The predicate that decides VIOLATION on an implementation transcript is the Lean definition Sf.Abs.holdsOn (lean/SfModel/Abs.lean: L0 abstract handle model of any container, reference stream as a parameter) evaluated by the driver `sfmodel abs`; SfProps/C08Abs.lean proves what an accepted transcript means and that contract-satisfying answers are accepted; the former Python predicate runs beside it as a cross-check (evidence: abs_predicate).",
+         "through C01/C05 lemmas, not as one theorem. The predicate that decides VIOLATION on an implementation transcript is the Lean definition Sf.Abs.holdsOn (lean/SfModel/Abs.lean: L0 abstract handle model of any container, reference stream as a parameter) evaluated by the driver `sfmodel abs`; SfProps/C08Abs.lean proves what an accepted transcript means and that contract-satisfying answers are accepted; the former Python predicate runs beside it as a cross-check (evidence: abs_predicate). The predicate is SOUND against the concrete handle model by a machine-checked bridge (SfProps/C05Bridge.lean `handle_run_accepted`: the transcript of every operation list of Sf.Handle from every invariant state, RAW/AU/WAV, every sample-granular codec, is accepted by holdsOn with ref := the decoded data region; induction over runOps). SfProps/C08Bridge.lean `accepted_rdwr_refines`: every RDWR transcript the predicate accepts refines the abstract file AbsFile of the statement (item view), and `rdwr_handle_run_accepted` is the bridge for read/write handles.",
     technique="Lean 4 theorems over a hand-written handle model + differential correspondence + abstract-file simulation on implementation transcripts",
     design_ref="DESIGN.md §7 C08")
 CLAIMED["C09"] = dict(
